@@ -872,6 +872,7 @@ func (in *Interp) execStmt(s last.Stmt, sc *Scope, fr *Frame) (ctl, *Scope) {
 		in.kind(in.StmtKinds, "while")
 		for {
 			fr.site = &x.Site
+			fr.scope = sc // the body's locals are gone when the condition is evaluated again
 			in.step()
 			if !truthy(in.eval(x.Cond, sc, fr)) {
 				return ctlNone, sc
@@ -915,6 +916,7 @@ func (in *Interp) execStmt(s last.Stmt, sc *Scope, fr *Frame) (ctl, *Scope) {
 				return c, sc
 			}
 			fr.site = &x.Site
+			fr.scope = bsc
 			if truthy(in.eval(x.Cond, bsc, fr)) {
 				return ctlNone, sc
 			}
@@ -985,6 +987,7 @@ func (in *Interp) execStmt(s last.Stmt, sc *Scope, fr *Frame) (ctl, *Scope) {
 		for {
 			in.step()
 			fr.site = &x.Site
+			fr.scope = sc // the loop variables are not in scope while the iterator runs
 			rs := adjust(in.callC(f, st, ctlv), len(x.Names))
 			if rs[0] == nil {
 				break
